@@ -46,6 +46,8 @@ RULE = ('case = one generate-input invocation; distinct by argument tuple; '
 ASSUMPTIONS = ['direction from bias ratio: r_bias = eta/(1+eta) (1 for inf), '
                'others (1-r_bias)/2 (tutorial: eta=0.5 is depolarising)']
 REQUIRED_COUNTERS = ['commands_into_a_shared_directory',
+                     'rewritten_specifications_read_back',
+                     'user_registered_code_classes',
                      'invocations', 'files_parsed', 'simulations_compared',
                      'range_specs', 'multi_eta_invocations',
                      'splitting_invocations']
@@ -353,6 +355,7 @@ def plan(tier, seed):
     tasks = [{'i': i, 'n': per, 'seed': seed, 'cost': per * 120}
              for i in range(n // per)]
     tasks.append({'kind': 'samedir', 'cost': 300})
+    tasks.append({'kind': 'usercode', 'cost': 300})
     tasks.append({'kind': 'ranges', 'kmax': 12 if tier == 'quick' else 60,
                   'nmax': 10 if tier == 'quick' else 40, 'cost': 500})
     return tasks
@@ -366,6 +369,8 @@ def run_same_dir(task, out):
     import panqec.cli as cli
     base = os.environ.get('PV_WORK') or tempfile.gettempdir()
     sequences = [
+        [('toric', '3', '0.05,0.1,0.15,0.2,0.25,0.3'), ('toric', '3', '0.1')],
+        [('t', '3,10', '0.01:0.3:0.01'), ('t', '3,10', '0.1,0.2')],
         [('toric_xzzx', '3,10'), ('toric', '3')],
         [('toric', '3'), ('toric_xzzx', '3,10')],
         [('experiment_low_p', '0.5,3'), (None, '10,inf')],
@@ -376,10 +381,12 @@ def run_same_dir(task, out):
         d = tempfile.mkdtemp(prefix='c19d-', dir=base)
         try:
             written = {}
-            for step, (label, etas) in enumerate(seq):
+            for step, item in enumerate(seq):
+                label, etas = item[:2]
+                prob = item[2] if len(item) > 2 else '0.1,0.2'
                 args = ['-d', d, '--decoder_class', 'MatchingDecoder', '-s',
                         '3x3', '--bias', 'Z', '--eta', etas, '--prob',
-                        '0.1,0.2', '--code_class', 'Toric2DCode']
+                        prob, '--code_class', 'Toric2DCode']
                 if label:
                     args += ['-l', label]
                 before = set(os.listdir(os.path.join(d, 'inputs'))) \
@@ -408,6 +415,43 @@ def run_same_dir(task, out):
                         label or 'experiment')}:
                     written[f] = open(os.path.join(d, 'inputs', f),
                                       'rb').read()
+                # every specification in the directory still reads back, and
+                # what this command wrote holds the rates it was given
+                from panqec.simulation import read_input_json
+                from panqec.cli import read_range_input
+                want = sorted(round(float(x), 9) for x in (
+                    read_range_input(prob) if ':' in prob else
+                    [float(x) for x in prob.split(',')]))
+                broken = False
+                for f in sorted(now):
+                    fp = os.path.join(d, 'inputs', f)
+                    try:
+                        with contextlib.redirect_stdout(io.StringIO()):
+                            b = read_input_json(fp, os.path.join(d, 'o.json'))
+                    except Exception as e:
+                        out.violation(
+                            'generate-input/same-directory/file-does-not-'
+                            'parse', f'{f} after the command with label '
+                            f'{label!r}: {type(e).__name__}: {e}', desc)
+                        broken = True
+                        break
+                    mine_now = f.startswith(label or 'experiment') and (
+                        f == f'{label or "experiment"}.json' or
+                        f.startswith(f'{label or "experiment"}_bias_'))
+                    if mine_now:
+                        got = sorted({round(float(sm.error_rate), 9)
+                                      for sm in b._simulations})
+                        out.count('rewritten_specifications_read_back')
+                        if got != want:
+                            out.violation(
+                                'generate-input/same-directory/rates-of-the-'
+                                'rewritten-specification',
+                                f'{f} holds rates {got[:6]}.. after being '
+                                f'written for --prob {prob}', desc)
+                            broken = True
+                            break
+                if broken:
+                    break
                 ne = len(etas.split(','))
                 mine = [f for f in now - before]
                 out.case(desc, True)
@@ -420,7 +464,44 @@ def run_same_dir(task, out):
             shutil.rmtree(d, ignore_errors=True)
 
 
+def run_user_code(task, out):
+    """generate-input for a code class the user registered (3-D, with
+    `dimension` declared as a property like the abstract base does)."""
+    from panqec import config
+    from panqec.codes import Toric3DCode, Toric2DCode
+
+    class PvLayeredToric3DCode(Toric3DCode):
+        dimension = property(lambda self: 3)
+
+    class PvFlatToric2DCode(Toric2DCode):
+        dimension = property(lambda self: 2)
+    before = dict(config.CODES)
+    base = os.environ.get('PV_WORK') or tempfile.gettempdir()
+    try:
+        config.register_code(PvLayeredToric3DCode)
+        config.register_code(PvFlatToric2DCode)
+        for cls, dim, sizes in (
+                ('PvLayeredToric3DCode', 3, ['3x3x3', '3x3x5', '3x4x5']),
+                ('PvFlatToric2DCode', 2, ['3x3', '3x5'])):
+            for method in ('direct', 'splitting'):
+                case = {'cls': cls, 'dim': dim,
+                        'decoder': 'BeliefPropagationOSDDecoder',
+                        'sizes': sizes, 'bias': 'Z', 'etas': ['10', 'inf'],
+                        'prob': '0.1,0.2', 'form': 'list',
+                        'rates': [0.1, 0.2], 'deformation': None,
+                        'method': method, 'label': None}
+                run_case(out, case, base)
+                out.count('user_registered_code_classes')
+    finally:
+        for k in list(config.CODES):
+            if k not in before:
+                config.CODES.pop(k)
+
+
 def run_task(task, out):
+    if task.get('kind') == 'usercode':
+        run_user_code(task, out)
+        return
     if task.get('kind') == 'samedir':
         run_same_dir(task, out)
         return
